@@ -59,6 +59,8 @@ def analyse_variant(prop: str, edits, tier: str = "quick", base: Optional[str] =
                 code, ctx = run_property(prop, tier, root=root, write=False)
                 failed = [{"rule": o.rule, "function": o.function, "construct": o.construct, "what": o.what}
                           for o in ctx.obligations if not o.ok and not o.undecided]
+                if code == 2:
+                    failed.append({"rule": "ANALYSIS-ERROR", "function": "", "construct": "", "what": "; ".join(ctx.floor_failures)})
             except AnalysisError as exc:
                 code, failed = 2, [{"rule": "ANALYSIS-ERROR", "function": "", "construct": "", "what": str(exc)}]
     return code, failed, buf.getvalue()
